@@ -41,7 +41,9 @@ def get_assertion_protected_variables(test_case: tc.TestCase) -> set[str]:
     """Get the names of all variables that should be protected due to assertions.
 
     A variable name is protected if it is the source of a ``ReferenceAssertion`` or if
-    it is in the (backward) dependency chain of such a variable.
+    it is in the (backward) dependency chain of such a variable.  A statement that uses
+    a protected object, e.g., calls a method on it, may change the state an assertion
+    observes; the variables of such a statement are protected as well.
 
     ``ExceptionAssertion`` are skipped (they have no source variable).
 
@@ -55,6 +57,8 @@ def get_assertion_protected_variables(test_case: tc.TestCase) -> set[str]:
     if not protected:
         return protected
     _add_backward_dependencies(test_case, protected)
+    while _add_state_dependencies(test_case, protected):
+        _add_backward_dependencies(test_case, protected)
     return protected
 
 
@@ -101,7 +105,11 @@ def _is_protected(statement: tc.Statement, protected: set[str]) -> bool:
     Returns:
         True, if the statement binds a protected variable or carries a reference assertion.
     """
-    return statement.bound_variable in protected or _carries_reference_assertion(statement)
+    if statement.bound_variable in protected or _carries_reference_assertion(statement):
+        return True
+    # A statement that binds nothing is only executed for its effect on what it uses.
+    used = statement.used_variables()
+    return statement.bound_variable is None and bool(used) and used <= protected
 
 
 def _add_backward_dependencies(test_case: tc.TestCase, protected: set[str]) -> None:
@@ -122,6 +130,44 @@ def _add_backward_dependencies(test_case: tc.TestCase, protected: set[str]) -> N
                     if used not in protected:
                         protected.add(used)
                         changed = True
+
+
+# Values of these types cannot be changed by the statements that use them.
+_IMMUTABLE_TYPES = (bool, int, float, complex, str, bytes, type)
+
+
+def _add_state_dependencies(test_case: tc.TestCase, protected: set[str]) -> bool:
+    """Extend *protected* with the variables of statements that use a protected object.
+
+    Such a statement may change the state of the object, which an assertion on the
+    object or on the result of a later call on it observes.
+
+    Args:
+        test_case: Test case to analyze.
+        protected: The set of protected variable names, mutated in place.
+
+    Returns:
+        Whether a name was added.
+    """
+    statements = test_case.statements()
+    bound_types = {
+        statement.bound_variable: statement.bound_type
+        for statement in statements
+        if statement.bound_variable is not None
+    }
+    added = False
+    for statement in statements:
+        names = set(statement.used_variables())
+        if not any(
+            name in protected and bound_types.get(name) not in _IMMUTABLE_TYPES for name in names
+        ):
+            continue
+        if statement.bound_variable is not None:
+            names.add(statement.bound_variable)
+        if not names <= protected:
+            protected.update(names)
+            added = True
+    return added
 
 
 class ExceptionTruncation(cv.ChromosomeVisitor):
